@@ -7,6 +7,7 @@ from qa import samp
 from datetime import datetime
 from qa import Driver, enc
 from codec import enc_art, enc_ts
+from realparse import label_free
 
 C = None
 
@@ -125,8 +126,7 @@ def run(rng, n_texts=60, deadlines=True):
         pt = C._preprocess_string(txt)
         ops.append("pre " + enc(txt)); want.append(cps(pt)); meta.append(("pre", txt))
         lab = C._get_labels(pt)
-        import re
-        stripped = re.sub('#[a-zA-Z0-9_-]+', '', pt).strip()
+        stripped = label_free(pt)
         ops.append("labels " + enc(pt)); want.append("|".join(cps(l) for l in lab) + " ## " + cps(stripped)); meta.append(("labels", pt))
         ms = C._match_regex(stripped, C.global_regex)
         ops.append("tokens " + enc(stripped))
